@@ -366,6 +366,11 @@ def random_case(rng, flags, maxlen=12):
             earlier = [o for o in c["ops"] if o["op"] in ("sample", "takepos", "takeseqs", "addrows")]
             if earlier and rng.random() < 0.15:
                 op = dict(rng.choice(earlier))    # the caller re-uses its arguments
+                if op["op"] == "addrows" and st.moltype in ("dna", "rna"):
+                    # the right operand is written in the alphabet of the alignment's moltype at this step
+                    # (the constructor would silently coerce T/U otherwise, which is its documented behaviour)
+                    a, b = ("T", "U") if st.moltype == "rna" else ("U", "T")
+                    op["rows"] = [r.replace(a, b) for r in op["rows"]]
                 if oracle_step(st, op) is SILENT:
                     continue
             else:
